@@ -666,6 +666,111 @@ fn rejoin(c: &Rejoin, ctx: &mut Ctx) {
     ctx.report.traces += 1;
 }
 
+// ------------------------------------------------------------------------------------------
+// Part 3: the shipped key-package stores (in-memory, SQLite) against a map
+// ------------------------------------------------------------------------------------------
+
+/// insert k1 / insert k2 / insert k1 with other data / get k1 / get k2 / delete k1 / delete k2
+const KP_OPS: usize = 7;
+
+fn kp_store_sequences(first: usize, depth: usize, ctx: &mut Ctx) {
+    use mls_rs::storage_provider::in_memory::InMemoryKeyPackageStorage;
+    use mls_rs_core::key_package::{KeyPackageData, KeyPackageStorage};
+    use mls_rs_provider_sqlite::connection_strategy::MemoryStrategy;
+    use mls_rs_provider_sqlite::SqLiteDataStorageEngine;
+    let data = |v: u8| KeyPackageData::new(vec![v; 40], vec![v; 32].into(), vec![v ^ 0xff; 32].into(), 1_900_000_000 + v as u64);
+    let ids: [&[u8]; 2] = [b"key-package-ref-1", b"key-package-ref-2"];
+    // enumerate all sequences of length `depth` that start with `first`
+    let mut seq = vec![first];
+    loop {
+        // run the sequence from scratch on the three stores
+        let mut mem = InMemoryKeyPackageStorage::new();
+        let mut sql = match SqLiteDataStorageEngine::new(MemoryStrategy).and_then(|e| e.key_package_storage()) {
+            Ok(s) => s,
+            Err(_) => crate::engine::machinery("C07: sqlite key package storage"),
+        };
+        let mut model: std::collections::BTreeMap<Vec<u8>, KeyPackageData> = Default::default();
+        ctx.cur_trail = vec![format!("key-package store operations {seq:?}")];
+        for (i, &op) in seq.iter().enumerate() {
+            ctx.eval();
+            match op {
+                0 | 1 | 2 => {
+                    let (id, d) = match op {
+                        0 => (ids[0], data(1)),
+                        1 => (ids[1], data(2)),
+                        _ => (ids[0], data(3)),
+                    };
+                    // An id is the hash of a freshly generated key package: the library never
+                    // inserts an id that is already stored. (Observed, outside the listed
+                    // properties: the in-memory store would overwrite, the SQLite store refuses.)
+                    if model.contains_key(id) {
+                        ctx.outcome("kp-store:insert-of-stored-id(skipped)");
+                        continue;
+                    }
+                    let a = KeyPackageStorage::insert(&mut mem, id.to_vec(), d.clone()).is_ok();
+                    let b = KeyPackageStorage::insert(&mut sql, id.to_vec(), d.clone()).is_ok();
+                    model.insert(id.to_vec(), d);
+                    if !a || !b {
+                        ctx.violation(format!("key-package-store-insert-failed|mem={a} sqlite={b}"), format!("operation {i} of {seq:?}"));
+                    }
+                }
+                3 | 4 => {
+                    let id = ids[op - 3];
+                    let a = KeyPackageStorage::get(&mem, id).ok().flatten();
+                    let b = KeyPackageStorage::get(&sql, id).ok().flatten();
+                    let m = model.get(id).cloned();
+                    if a != m || b != m {
+                        ctx.violation(
+                            format!("key-package-store-get-differs|mem={} sqlite={} model={}", a.is_some(), b.is_some(), m.is_some()),
+                            format!("operation {i} of {seq:?}: in-memory, SQLite and the map disagree on get"),
+                        );
+                    } else {
+                        ctx.outcome(if m.is_some() { "kp-store:get:some" } else { "kp-store:get:none" });
+                    }
+                }
+                _ => {
+                    let id = ids[op - 5];
+                    let a = KeyPackageStorage::delete(&mut mem, id).is_ok();
+                    let b = KeyPackageStorage::delete(&mut sql, id).is_ok();
+                    model.remove(id);
+                    if !a || !b {
+                        ctx.violation(format!("key-package-store-delete-failed|mem={a} sqlite={b}"), format!("operation {i} of {seq:?}"));
+                    }
+                }
+            }
+        }
+        // final contents
+        for id in ids {
+            let (a, b, m) = (KeyPackageStorage::get(&mem, id).ok().flatten(), KeyPackageStorage::get(&sql, id).ok().flatten(), model.get(id).cloned());
+            if a != m || b != m {
+                ctx.violation("key-package-store-final-contents-differ", format!("after {seq:?}"));
+            }
+        }
+        if mem.key_packages().len() != model.len() || sql.count().ok() != Some(model.len()) {
+            ctx.violation("key-package-store-count-differs", format!("after {seq:?}: in-memory {} / sqlite {:?} / map {}", mem.key_packages().len(), sql.count().ok(), model.len()));
+        }
+        ctx.report.traces += 1;
+        ctx.report.transitions += seq.len() as u64;
+        ctx.goal("key-package-store-sequences");
+        // next sequence (odometer over positions 1..), all lengths 1..=depth
+        if seq.len() < depth {
+            seq.push(0);
+            continue;
+        }
+        loop {
+            if seq.len() == 1 {
+                return;
+            }
+            let last = seq.len() - 1;
+            if seq[last] + 1 < KP_OPS {
+                seq[last] += 1;
+                break;
+            }
+            seq.pop();
+        }
+    }
+}
+
 pub fn run(ctx: &mut Ctx) {
     let quick = ctx.quick();
     let mut item = 1000;
@@ -681,6 +786,14 @@ pub fn run(ctx: &mut Ctx) {
     for c in rejoin_cases(quick) {
         if ctx.mine(item) {
             guarded(ctx, "rejoin", |ctx| rejoin(&c, ctx));
+        }
+        item += 1;
+    }
+    // the shipped key-package stores answer like a map, for every operation sequence
+    let depth = if quick { 4 } else { 6 };
+    for first in 0..KP_OPS {
+        if ctx.mine(item) {
+            guarded(ctx, "key-package-stores", |ctx| kp_store_sequences(first, depth, ctx));
         }
         item += 1;
     }
